@@ -275,6 +275,8 @@ def bufs_check(ctx, own, nscripts, nsteps, mc_consts, rule, assumptions):
                 prop = "C02"
             if r["field"] in ("table", "path", "text", "row", "undo") and k in ("e", "b"):
                 prop = "C20"
+            if isinstance(r.get("expected"), dict) and r["expected"].get("msg") == "modified":
+                prop = "C02"        # the model refuses (unsaved changes): whatever the editor did instead is a matter of C02
             if r["field"] == "disk":
                 prop = "C01" if own == "C01" else "C03"
             if prop == own or (own == "C02" and r["field"] == "dirty-unsound"):
